@@ -186,18 +186,30 @@ pub fn run_one(rep: &mut Report, p: &Params, shape: Shape, bars: bool, steps: us
 
 /// repeated reset / clone-drop / serde-swap cycles on one instance: heap must not grow per cycle
 pub fn run_cycles(rep: &mut Report, p: &Params, bars: bool, cycles: usize, seed: u64) {
+    // mixed cycles, then each kind on its own (a per-kind leak or a window that grows with every clone /
+    // restore is diluted when the kinds alternate)
+    for mode in 0..4usize {
+        run_cycles_mode(rep, p, bars, if mode == 0 { cycles } else { cycles / 3 + 8 }, seed ^ mode as u64, mode);
+    }
+}
+
+/// mode 0: reset / clone / serde alternate; 1: reset only; 2: clone only; 3: serde only. The number of
+/// inputs between two cycle ends follows (n+5)*2^(k mod 7): a structure that doubles whenever it is
+/// copied needs ever longer feeds to keep growing.
+pub fn run_cycles_mode(rep: &mut Report, p: &Params, bars: bool, cycles: usize, seed: u64, mode: usize) {
     let mut g = ShapeGen::new(Shape::Walk, seed);
     let mut inst = Inst::new(p);
     let n = p.max_period();
     let b = bound(p);
     let one_cycle = |inst: &mut Inst, g: &mut ShapeGen, k: usize| -> bool {
-        for _ in 0..(n + 5) {
+        let feed = if mode == 0 { n + 5 } else { (n.min(64) + 5) << (k % 7) };
+        for _ in 0..feed {
             let x = g.next(bars);
             if inst.feed(&x).is_err() {
                 return false;
             }
         }
-        match k % 3 {
+        match if mode == 0 { k % 3 } else { mode - 1 } {
             0 => inst.reset().is_ok(),
             1 => match inst.try_clone() {
                 Ok(c) => {
@@ -211,7 +223,7 @@ pub fn run_cycles(rep: &mut Report, p: &Params, bars: bool, cycles: usize, seed:
         }
     };
     // first cycles of each kind establish the baseline (allocator slack, lazily created buffers)
-    for k in 0..3 {
+    for k in 0..if mode == 0 { 3 } else { 1 } {
         if !one_cycle(&mut inst, &mut g, k) {
             return;
         }
@@ -226,7 +238,7 @@ pub fn run_cycles(rep: &mut Report, p: &Params, bars: bool, cycles: usize, seed:
     rep.evaluations += 1;
     rep.ratio(&format!("c18.cycle_growth.{}", p.kind.name()), growth.max(0) as f64 / b as f64);
     if growth > b as i64 {
-        fail(rep, p, "heap_growth_per_cycle", format!("{} (bars={}): live heap grew by {} bytes over {} reset/clone/serde cycles (bound {})", p.label(), bars, growth, cycles, b),
+        fail(rep, p, "heap_growth_per_cycle", format!("{} (bars={}): live heap grew by {} bytes over {} {} cycles (bound {})", p.label(), bars, growth, cycles, ["reset/clone/serde", "reset", "clone", "serde"][mode], b),
              json!({"params": p.to_json(), "cycles": cycles, "bars": bars, "seed": seed.to_string()}));
         return;
     }
